@@ -19,12 +19,23 @@ def loop_shape(fn, ctx, L):
     out = {"kind": "other", "node": L, "body": n.get("body"), "var": None, "exits": [e for e in allx if e[1] != "continue"],
            "continues": [e for e in allx if e[1] == "continue"]}
     ini = fn.nodes[n["init"]] if n.get("init") is not None else None
-    if not (ini and ini["k"] == "decl" and len(ini["vars"]) == 1 and ini["vars"][0].get("init") is not None):
+    v = None
+    if ini and ini["k"] == "decl" and len(ini["vars"]) == 1 and ini["vars"][0].get("init") is not None:
+        v = ini["vars"][0]
+        startnode = v["init"]
+    elif ini and ((ini["k"] == "bin" and ini["op"] == "=") or (ini["k"] == "call" and ini.get("ck") == "op" and ini.get("op") == "=" and len(ini["args"]) == 2)):
+        # the counter / iterator was declared before the loop and is set in the for-init:  for (it = c.begin(); ...)
+        tgt = ini["l"] if ini["k"] == "bin" else ini["args"][0]
+        tn = fn.nodes[tgt]
+        if tn["k"] == "ref" and tn.get("dk") == "local":
+            v = {"d": tn["d"], "n": tn["n"]}
+            startnode = ini["r"] if ini["k"] == "bin" else ini["args"][1]
+            out["assigned_init"] = n["init"]
+    if v is None:
         return out
-    v = ini["vars"][0]
     var = ("var", v["d"], v["n"])
     out["var"] = var
-    out["start"] = _unconv(ctx.key(v["init"]))
+    out["start"] = _unconv(ctx.key(startnode))
     # increment: ++v, v++, v += 1
     stepok = False
     incparts = []
@@ -49,6 +60,10 @@ def loop_shape(fn, ctx, L):
             stepok = True
     # variable modified in the body?
     muts = [j for j in ctx.mut.get(v["d"], []) if j not in incparts and j != n.get("inc")]
+    if out.get("assigned_init") is not None:
+        # a variable declared before the loop: only changes inside the loop body matter for the shape of this loop
+        inbody = {x for x, _ in fn.walk(n["body"])} if n.get("body") is not None else set()
+        muts = [j for j in muts if j in inbody]
     if muts:
         stepok = False
     if not stepok or n.get("c") is None:
@@ -91,10 +106,11 @@ def loop_shape(fn, ctx, L):
     if f[0] == "!=":
         a, b = f[1], f[2]
         other = b if a[:2] == var[:2] else (a if b[:2] == var[:2] else None)
-        if other is not None and other[0] == "mcall" and other[1].endswith("::end"):
+        other = _unconv(other) if other is not None else None      # iterator -> const_iterator conversion around end()
+        if other is not None and other[0] == "mcall" and other[1].split("::")[-1] in ("end", "cend"):
             m = other[2]
             st = out["start"]
-            if st[0] == "mcall" and st[1].endswith("::begin") and st[2] == m:
+            if st[0] == "mcall" and st[1].split("::")[-1] in ("begin", "cbegin") and st[2] == m:
                 out.update(kind="iter", bound=m)
                 return out
     return out
